@@ -21,7 +21,7 @@ CHECKS = {
  "C13": ("exploration", "property-based testing: invariant over every update comparing gallery before/after and histories vs the monitor's full log",
          "Generated lifetimes up to 300 updates with quality patterns (increasing/decreasing/constant/around the threshold/equal values), plus crowded histories: feature bound, collect gate, sub-multiset, lowest-quality-first eviction, truthful count, newest-first-and-only-box; observed/predicted/feature histories equal the last min(length, history) log entries, also in the wasted-track conversions.",
          "The very first observation of a track is taken as given (statement does not pin it).", "3/C13"),
- "C02": ("exploration", "property-based testing + exhaustive small-matrix enumeration: SortVoting vs subset-DP optimal assignment",
+ "C02": ("exploration", "property-based testing + exhaustive small-matrix enumeration: SortVoting vs subset-DP optimal assignment; thorough tier adds coverage-guided fuzzing (libFuzzer bytes drive the same proptest strategies, same oracle)",
          "Level A: the voting engine on every weight matrix of shape <=3x3 over a grid straddling the threshold (exhaustive) and on random matrices up to 8x8 with shuffled arrival order; the result must be one-to-one over reported pairs, never below the gate, and its total must equal the DP optimum with 'unmatched = threshold'.",
          "Level A totals compared within rows*(2e-6 + 4e-7*max|w|). Level B: Sort / BatchSort histories; before every call the weights are recomputed in f64 from the observable state (posterior boxes, raw Kalman state via the guarded accessor) and the call's continuations must be gated pairs of live tracks with optimal total; calls with a decision within 1e-4 of a threshold are band.", "3/C02"),
  "C05": ("exploration", "differential property testing under forced worker schedules: 1 shard/free schedule vs k shards/planned interleavings of the Distances commands",
@@ -30,40 +30,40 @@ CHECKS = {
  "C06": ("exploration", "differential property testing under forced dispatch/voting orders: batch tracker vs simple tracker per scene; result-shape invariants; watchdog for completion",
          "Generated batch sequences over 1..5 scenes, 1..4 distance and 1..3 voting workers, caller or drainer-thread retrieval, plans ordering scene dispatch and voting jobs, delays, two shutdown modes. Per scene the batch tracker's records must equal the simple tracker's (bit-equal up to ids); each batch delivers exactly one result per scene with records echoing the detections in order and fresh distinct ids; every case must complete.",
          "Deadlock freedom for ALL schedules is not established (sampled forced orders on the real code; the explicit-state exploration mentioned in the quantifier is a different technique and is not substituted). A time-out is re-run in a fresh child before being reported.", "3/C06"),
- "C07": ("exploration", "property-based testing: generated predict/update sequences vs dense f64 textbook Kalman filter; exact cost/gate relations",
+ "C07": ("exploration", "property-based testing: generated predict/update sequences vs dense f64 textbook Kalman filter; exact cost/gate relations; thorough tier adds coverage-guided fuzzing (libFuzzer bytes drive the same proptest strategies, same oracle)",
          "Generated measurement sequences (<=300 steps, seven motion modes) compared step by step with an independent dense f64 filter: mean, covariance (symmetry, SPD by f64 Cholesky, entries), distance against the filter's own state and against the reference; stationary objects; vector filter bit-equal to point filters; cost conversions exact for every generated d incl. +-3 ulp around each chi-square entry.",
          "Tolerances >= 5x measured f32 drift inside the regular envelope (height within x10, <=3 predict-only steps in a row). Outside it only finiteness/SPD/no-panic are asserted and D10 is a listed known finding.", "3/C07"),
- "C09": ("exploration", "model-based property testing: generated store operation sequences vs sequential map model; exhaustive short sequences",
+ "C09": ("exploration", "model-based property testing: generated store operation sequences vs sequential map model; exhaustive short sequences; thorough tier adds coverage-guided fuzzing (libFuzzer bytes drive the same proptest strategies, same oracle)",
          "Every sequence of length <=2 (quick) / <=3 (thorough) over a 39-operation alphabet x shard counts {1,2,3}, plus random sequences up to 300 operations over 1..5 shards, is applied to the real store and to a sequential model; every return value (incl. merge failures: missing destination/source, same track, failing merge callback) and the full per-shard contents are compared after every step.",
          "The model reuses the harness-owned callbacks (attribute update/merge, optimise) - they are inputs, not code under test; track/store semantics are modelled independently. Diagnostic 'seen by last optimise' fields are masked (hash-order dependent for unordered class lists).", "3/C09"),
  "C10": ("exploration", "property-based testing under forced worker schedules: generated stores/queries x command-granularity interleavings (hook gates) vs sequential definition",
          "Generated store contents and candidate batches (foreign and owned), both only_baked settings, all()/iterator, 1..4 shards; a plan totally orders all Distances commands (FIFO per shard) and the caller's own step; all interleavings enumerated for scenarios with <= 6 commands, random plans and delays beyond. The multiset of results and the number of error items must equal the sequential definition and the store must be unchanged.",
          "Schedules are forced at hook granularity (command begin/end, the caller's step inside the owned query), not at instruction level; gate waits are bounded and an unachieved plan only costs coverage (counted).", "3/C10"),
- "C11": ("fault_enumeration", "property-based testing + exhaustive fault injection: every callback position of every generated case fails once; pre/post state comparison and sequential track model",
+ "C11": ("fault_enumeration", "property-based testing + exhaustive fault injection: every callback position of every generated case fails once; pre/post state comparison and sequential track model; thorough tier adds coverage-guided fuzzing (libFuzzer bytes drive the same proptest strategies, same oracle)",
          "For each generated (tracks, operation) case a fault-free run numbers the user-callback invocations (attribute update, attribute merge, optimise per class); then every position is replayed failing, on add_observation, Track::merge, store.add, merge_external and merge_owned. Failure => state equals the pre-state in attributes, observations of every class, metric state and merge history, zero notifications, both tracks still stored; success => exactly one notification and the state of the sequential model (merge history = previous ++ source once).",
          "Harness callbacks leave half-applied changes behind before failing, so a missing restore is visible. Metric state is observed through a follow-up optimise call. Class lists without duplicates.", "3/C11"),
- "C14": ("exploration", "property-based testing: validity predicate over NMS output with independent coverage oracle; idempotence",
+ "C14": ("exploration", "property-based testing: validity predicate over NMS output with independent coverage oracle; idempotence; thorough tier adds coverage-guided fuzzing (libFuzzer bytes drive the same proptest strategies, same oracle)",
          "Generated clustered/duplicated/nested/rotated lists with score modes and thresholds; the output must be references into the input, valid, filter-passing, rank-ordered, top-ranked first, no kept box covered beyond the threshold by a higher-ranked kept box, every dropped box so covered by one, and a second application is the identity.",
          "Coverage computed with oracle/geom.rs; band 2e-4 around the nms threshold and score==threshold accept either outcome.", "3/C14"),
- "C15": ("exploration", "property-based testing in child processes: inclusion-exclusion / exact grid-count oracle, permutation metamorphic relation, hang detection",
+ "C15": ("exploration", "property-based testing in child processes: inclusion-exclusion / exact grid-count oracle, permutation metamorphic relation, hang detection; duplicates class (same object twice / copy); tracker-level stored shares vs the same oracle",
          "Generated sets of 1..8 boxes (integer grid exact, axis-aligned, rotated, near-degenerate) evaluated in child processes; share vs uncovered fraction, range, free boxes = 1, order independence, completion (panic / 10 s time-out).",
          "Known finding D9 (geo 0.27 boolean ops panic / hang / wrong region) is excused only for inputs that satisfy the objective degeneracy predicate (a vertex within 1e-4 of an edge of another box); general-position inputs are never excused.", "3/C15"),
- "C17": ("exploration", "property-based testing: reference re-implementation of the counting rules, all permutations of small streams",
+ "C17": ("exploration", "property-based testing: reference re-implementation of the counting rules, all permutations of small streams; thorough tier adds coverage-guided fuzzing (libFuzzer bytes drive the same proptest strategies, same oracle)",
          "Generated streams for TopN / BestFit / Hungarian voting checked against an f64 re-implementation written from the statement; validity under ties; order independence under random permutations and under all n! permutations of 2..5-item streams.",
          "Weights within 1e-6 relative + 3.4e-6 of the largest distance magnitude (f32 differences summed); closer weights count as ties. Metric units 1e-8..1e4, query/track ids from disjoint or shared id spaces, N up to usize::MAX.", "3/C17"),
- "C20": ("exploration", "exhaustive enumeration of constraint tables and probes vs reference lookup",
+ "C20": ("exploration", "exhaustive enumeration of constraint tables and probes vs reference lookup; thorough tier adds coverage-guided fuzzing (libFuzzer bytes drive the same proptest strategies, same oracle)",
          "Every table over <=3 configured gaps in 0..8 x 5 limits, with duplicates and insertion orders, probed at gaps 0..10 x 32 distances (each limit +-2 ulp) against 'limit of the smallest configured gap >= d, first insertion wins'; monotone in distance; builder = add_constraints. Tracker level: binding tables (every continuation admitted by the reference lookup, optimal among admitted pairs) and non-binding tables (limits 1e6) = unconstrained run, bit-equal up to ids.",
          "Table level is exhaustive for the enumerated space only; tracker level is sampled.", "3/C20"),
- "C08": ("exploration", "property-based testing: generated box pairs vs independent f64 convex-clipping oracle; metamorphic rigid motions",
+ "C08": ("exploration", "property-based testing: generated box pairs vs independent f64 convex-clipping oracle; metamorphic rigid motions; thorough tier adds coverage-guided fuzzing (libFuzzer bytes drive the same proptest strategies, same oracle)",
          "Generated-input search (proptest, shrinking) over constructed pair configurations against an independent f64 geometry kernel with stated tolerances, plus symmetry/range/identity/rigid-motion relations and the soundness of the too_far pre-filter. Held-on-everything-explored, not a proof.",
          "Trusts oracle/geom.rs (self-checked for symmetry per case); tolerances 1e-4 of the smaller area (+ eps64*coord^2 term for the absolute-coordinate clipper), IoU 2e-4; touching configurations three-valued.", "3/C08"),
- "C16": ("exploration", "property-based testing: exhaustive over vector lengths 0..=130, random values, scalar f64 reference and algebraic relations",
+ "C16": ("exploration", "property-based testing: exhaustive over vector lengths 0..=130, random values, scalar f64 reference and algebraic relations; thorough tier adds coverage-guided fuzzing (libFuzzer bytes drive the same proptest strategies, same oracle)",
          "Every length 0..=130 (plus 247..4099: the usual embedding sizes and their neighbours) is enumerated with random dense and sparse values, the round trip also with arbitrary finite bit patterns and through both the by-reference and by-value conversion; round trip compared bit-exactly with zero padding; distances against scalar f64 formulas on the common packed prefix; symmetry, identity, triangle inequality, cosine range/parallel/opposite/scale relations.",
          "Empty vector may pack to 0 or 8 zeros (statement does not pin it): either reading accepted consistently per case. Relative tolerance 1e-4.", "3/C16"),
- "C18": ("translation_validation", "differential property testing (Hypothesis): generated API scripts executed through the Python module built from the current tree and through the Rust API; traces compared exactly",
+ "C18": ("translation_validation", "differential property testing (Hypothesis): generated API scripts executed through the Python module built from the current tree and through the Rust API; traces compared exactly; comparison cut at calls the Rust API itself may decide either way (f64 shadow margin)",
          "Hypothesis-generated scripts (boxes with every getter/setter, clipping, nms, three Kalman filters, constraints, the four trackers incl. expiry-boundary probes, histories, batch requests/results; optional constructor arguments individually omitted) run through `similari.so` built by cargo from /repo's working tree and through a Rust driver calling the wrapped API with the documented defaults; traces must be identical (batch ids up to renaming). Failures are shrunk by Hypothesis and saved as replay.",
          "A script on which the Rust driver answers and the Python side does not return within 60 s (GIL-independent watchdog) is a violation only after it reproduced twice in fresh interpreter processes, otherwise inconclusive. The defaults table in the driver is the reference for 'documented defaults'. Tie-free tracker inputs by construction (well separated objects). Python: python3-vt (hypothesis 6.168).", "3/C18"),
- "C19": ("exploration", "property-based testing: round trips, polygon vs reference rotation, equality relation laws across the EPS boundary",
+ "C19": ("exploration", "property-based testing: round trips, polygon vs reference rotation, equality relation laws across the EPS boundary; thorough tier adds coverage-guided fuzzing (libFuzzer bytes drive the same proptest strategies, same oracle)",
          "Generated boxes over 1e-2..1e4: ltwh<->universal round trip within ulps, polygon vertices/area/centre/radius against the reference rotation, equality reflexive/symmetric/threshold-correct for single-coordinate perturbations in both argument orders, normalize_angle range and equivalence.",
          "Equality threshold is three-valued inside [0.9,1.1] EPS. Trusts f64 sin/cos.", "3/C19"),
 }
@@ -102,6 +102,10 @@ def main():
         "engines": [
             {"name": "sv-harness", "path": "/verif/harness", "serves_properties": [c["property_id"] for c in checks],
              "kind_free_text": "Rust crate: proptest 1.11 TestRunner (fixed seeds from VERIF_SEED, shrinking, JSON replay), exhaustive enumerators, independent f64 oracles"},
+            {"name": "sv-fuzz", "path": "/verif/fuzz", "serves_properties": ["C02", "C07", "C08", "C09", "C11", "C14", "C16", "C17", "C19", "C20"],
+             "kind_free_text": "cargo-fuzz / libFuzzer binary `props` (thorough tier only, started by ./run <ID> thorough): input bytes are the random stream of the harness's proptest strategies (PassThrough RNG, vendored proptest with one marked change), every input judged by the same oracle, failing input written as a decoded JSON replay"},
+            {"name": "hypothesis-c18", "path": "/verif/py", "serves_properties": ["C18"],
+             "kind_free_text": "Hypothesis 6.168 (python3-vt) script generator and Python executor; Rust side = `check C18 --child pydriver`"},
         ],
         "checks": checks,
         "not_applicable": na,
